@@ -11,9 +11,10 @@ and every call sequence.
 * refinement: `abs_fit`, `abs_partialFit` (each call commutes with the abstraction to training lists of
   `(index, label, weight)` triples — lists, hence also multisets: `clf_depends_only_on_multiset`);
 * invariants: `enforceUnique_nodup`, `base_unchanged_without_setBase`,
-  `partialFit_useBase_independent_of_cur`, atomicity of raising calls (`fit_error_atomic`,
-  `partialFit_rejected_atomic`, and its limits `partialFit_error_not_atomic_counterexample`);
-* `clf_is_fresh_fit_partial` (+ `…_counterexample`): emulated path, induction over the call sequence;
+  `partialFit_useBase_independent_of_cur`, atomicity of every raising call (`fit_error_atomic`,
+  `partialFit_error_atomic`, `step_error_atomic`);
+* `clf_is_fresh_fit`: emulated path, induction over the call sequence (full strength since the repair of
+  `partial_fit`; the old behaviour and its counterexamples are kept in `Ska.C19.Regressions`);
 * `clf_is_replay`: native path (and in fact every path), by naturality of the model in the classifier;
 * `speedup_eq_direct`, `speedup_nan_raises`, `speedup_never_changes_prediction` (full strength over
   histories since /repo commit 1805c2fd; the old behaviour is kept in `Ska.C19.Regressions`).
@@ -128,50 +129,7 @@ theorem step_ok_inv (cfg : Cfg L W) (fitFn : Data L W → C) (pfitFn : C → Dat
       · exact i4 c d' hc hd'
       · simp only [if_true] at hd' hc; injection hd' with hd'; injection hc with hc; subst hd'; exact hc.symm
 
-/-- A run in which every raising call left the object as it was (all argument errors and
-`NotFittedError` do: `partialFit_rejected_atomic`, `fit_error_atomic`). -/
-def CleanRun (cfg : Cfg L W) (fitFn : Data L W → C) (pfitFn : C → Data L W → C) :
-    St C L W → List (Op L W) → Prop
-  | _, [] => True
-  | s, op :: ops =>
-    ((step cfg fitFn pfitFn s op).2 = none ∨ (step cfg fitFn pfitFn s op).1 = s) ∧
-      CleanRun cfg fitFn pfitFn (step cfg fitFn pfitFn s op).1 ops
-
-/- Full statement (false of the current code, see `clf_is_fresh_fit_counterexample`):
-   `∀ ops, Inv cfg fitFn s → Inv cfg fitFn (run cfg fitFn pfitFn s ops)`. -/
-
-/-- `clf_is_fresh_fit_partial` — **after every call sequence** (induction over the sequence) in which
-no raising call modified the object, the wrapped classifier is `fitFn` of the recorded training list —
-a fresh copy trained on exactly the implied triples — **for every `fitFn`**; likewise the base
-classifier. -/
-theorem clf_is_fresh_fit_partial (cfg : Cfg L W) (fitFn : Data L W → C) (pfitFn : C → Data L W → C)
-    (hn : cfg.native = false) (ops : List (Op L W)) (s : St C L W)
-    (hi : Inv cfg fitFn s) (hc : CleanRun cfg fitFn pfitFn s ops) :
-    Inv cfg fitFn (run cfg fitFn pfitFn s ops) := by
-  induction ops generalizing s with
-  | nil => exact hi
-  | cons op ops ih =>
-    simp only [run]
-    obtain ⟨h1, h2⟩ := hc
-    apply ih _ _ h2
-    rcases h1 with h1 | h1
-    · exact step_ok_inv cfg fitFn pfitFn s op hn hi h1
-    · rw [h1]; exact hi
-
-
-/-- `clf_is_fresh_fit_counterexample` — the unrestricted statement fails: weights `None` so far, then a
-`partial_fit` with weights raises in `_concat_sw` *after* `idx_` / `y_` were extended; the next
-(successful) `partial_fit` trains on the rejected sample 2 as well. -/
-theorem clf_is_fresh_fit_counterexample :
-    let cfg : Cfg Nat Nat := ⟨4, [0, 1, 0, 1], none, false, false, false⟩
-    let s0 : St (Data Nat Nat) Nat Nat := ⟨none, none, none, none⟩
-    let s1 := (step cfg id (fun c _ => c) s0 (.fit [0, 1] none none false)).1
-    let r2 := step cfg id (fun c _ => c) s1 (.pfit [2] (some [1]) (some [1]) false false)
-    let r3 := step cfg id (fun c _ => c) r2.1 (.pfit [3] none none false false)
-    r2.2 = some .mixed ∧ r2.1 ≠ s1 ∧ r3.2 = none ∧
-      r3.1.clf = some ⟨[0, 1, 2, 3], [0, 1, 1, 1], none⟩ := by decide
-
-/-! ## Atomicity of raising calls -/
+/-! ## Atomicity of raising calls (full strength since the repair of `partial_fit`) -/
 
 /-- `fit` never changes the object when it raises. -/
 theorem fit_error_atomic (cfg : Cfg L W) (fitFn : Data L W → C) (s : St C L W)
@@ -189,23 +147,113 @@ theorem partialFit_rejected_atomic (cfg : Cfg L W) (fitFn : Data L W → C) (pfi
     partialFit cfg fitFn pfitFn s idx y sw ub sb = (s, some e) :=
   partialFit_rejected_unchanged cfg fitFn pfitFn s idx y sw ub sb e h
 
-/- Full statement (false): `(partialFit …).2 ≠ none → (partialFit …).1 = s`. -/
+theorem partialNative_error_atomic (cfg : Cfg L W) (pfitFn : C → Data L W → C)
+    (s : St C L W) (idx : List Int) (ay : List L) (aw : Option (List W)) (ub sb : Bool)
+    (h : (partialNative cfg pfitFn s idx ay aw ub sb).2 ≠ none) :
+    (partialNative cfg pfitFn s idx ay aw ub sb).1 = s := by
+  unfold partialNative at h ⊢
+  cases hx : xIndexOk cfg idx with
+  | false => simp
+  | true =>
+    simp only [hx, Bool.not_true, Bool.false_eq_true, if_false] at h ⊢
+    cases hc : (if ub = true then s.bclf else s.clf) with
+    | none => simp
+    | some c => rw [hc] at h; exfalso; cases sb <;> simp at h
 
-/-- …but it is **not** atomic in general: three raising paths leave a modified object behind
-(`_concat_sw` on mixed weights; the base classifier handed to `__init__` has no `base_idx_`, raised
-after `clf_` was replaced by an unfitted clone; an index below `-n` that passes the validation when
-labels are given). -/
-theorem partialFit_error_not_atomic_counterexample :
-    let cfg : Cfg Nat Nat := ⟨4, [0, 1, 0, 1], none, false, false, false⟩
-    let d : Data Nat Nat := ⟨[0, 1], [0, 1], none⟩
-    let s : St (Data Nat Nat) Nat Nat := ⟨some d, some d, none, none⟩
-    let sb : St (Data Nat Nat) Nat Nat := ⟨some d, some d, some d, none⟩
-    partialFit cfg id (fun c _ => c) s [2] (some [1]) (some [1]) false false =
-        (⟨some d, some ⟨[0, 1, 2], [0, 1, 1], none⟩, none, none⟩, some .mixed) ∧
-    partialFit cfg id (fun c _ => c) sb [2] none none true false =
-        (⟨none, some d, some d, none⟩, some .attr) ∧
-    partialFit cfg id (fun c _ => c) s [-5] (some [1]) none false false =
-        (⟨some d, some ⟨[0, 1, -5], [0, 1, 1], none⟩, none, none⟩, some .index) := by decide
+theorem partialEmu_error_atomic (cfg : Cfg L W) (fitFn : Data L W → C)
+    (s : St C L W) (idx : List Int) (ay : List L) (aw : Option (List W)) (ub sb : Bool)
+    (h : (partialEmu cfg fitFn s idx ay aw ub sb).2 ≠ none) :
+    (partialEmu cfg fitFn s idx ay aw ub sb).1 = s := by
+  unfold partialEmu at h ⊢
+  cases hcur : s.cur with
+  | none => rfl
+  | some cur0 =>
+    rw [hcur] at h
+    simp only at h ⊢
+    cases hst : (if ub = true then s.base else some cur0) with
+    | none => rfl
+    | some d =>
+      rw [hst] at h
+      simp only at h ⊢
+      cases hm : merge cfg.unique d idx ay aw with
+      | error e => rfl
+      | ok d' =>
+        rw [hm] at h
+        simp only at h ⊢
+        cases he : (fit cfg fitFn ⟨if ub = true then none else s.clf, some cur0, s.bclf, s.base⟩
+            d'.idx (some d'.y) d'.sw sb).2 with
+        | some e => rfl
+        | none => rw [he] at h; simp only at h; exact absurd he h
+
+/-- the emulated `partial_fit` either leaves the object as it was or ends like the closing `fit` on the
+object with `clf_` swapped -/
+theorem partialEmu_cases (cfg : Cfg L W) (fitFn : Data L W → C)
+    (s : St C L W) (idx : List Int) (ay : List L) (aw : Option (List W)) (ub sb : Bool) :
+    (partialEmu cfg fitFn s idx ay aw ub sb).1 = s ∨
+    ∃ d' : Data L W, (partialEmu cfg fitFn s idx ay aw ub sb).1 =
+      (fit cfg fitFn ⟨if ub = true then none else s.clf, s.cur, s.bclf, s.base⟩ d'.idx (some d'.y) d'.sw sb).1 := by
+  unfold partialEmu
+  cases hcur : s.cur with
+  | none => exact Or.inl rfl
+  | some cur0 =>
+    simp only
+    cases hst : (if ub = true then s.base else some cur0) with
+    | none => exact Or.inl rfl
+    | some d =>
+      simp only
+      cases hm : merge cfg.unique d idx ay aw with
+      | error e => exact Or.inl rfl
+      | ok d' =>
+        simp only
+        cases he : (fit cfg fitFn ⟨if ub = true then none else s.clf, some cur0, s.bclf, s.base⟩
+            d'.idx (some d'.y) d'.sw sb).2 with
+        | some e => exact Or.inl rfl
+        | none => exact Or.inr ⟨d', rfl⟩
+
+/-- `partialFit_error_atomic` — **`partial_fit` never changes the object when it raises**, on the native
+and on the emulated path, whatever the exception (argument validation, `NotFittedError`, mixed weights,
+index below `-n`, base data unknown). -/
+theorem partialFit_error_atomic (cfg : Cfg L W) (fitFn : Data L W → C) (pfitFn : C → Data L W → C)
+    (s : St C L W) (idx : List Int) (y : Option (List L)) (sw : Option (List W)) (ub sb : Bool)
+    (h : (partialFit cfg fitFn pfitFn s idx y sw ub sb).2 ≠ none) :
+    (partialFit cfg fitFn pfitFn s idx y sw ub sb).1 = s := by
+  cases hv : validatePartial cfg s idx y sw ub with
+  | error e => rw [partialFit_rejected_unchanged cfg fitFn pfitFn s idx y sw ub sb e hv]
+  | ok p =>
+    obtain ⟨ay, aw⟩ := p
+    rw [partialFit_valid cfg fitFn pfitFn s idx y sw ub sb ay aw hv] at h ⊢
+    cases hnat : cfg.native with
+    | true =>
+      rw [hnat] at h
+      simp only [if_true] at h ⊢
+      exact partialNative_error_atomic cfg pfitFn s idx ay aw ub sb h
+    | false =>
+      rw [hnat] at h
+      simp only [Bool.false_eq_true, if_false] at h ⊢
+      exact partialEmu_error_atomic cfg fitFn s idx ay aw ub sb h
+
+/-- every call on the wrapper is atomic -/
+theorem step_error_atomic (cfg : Cfg L W) (fitFn : Data L W → C) (pfitFn : C → Data L W → C)
+    (s : St C L W) (op : Op L W) (h : (step cfg fitFn pfitFn s op).2 ≠ none) :
+    (step cfg fitFn pfitFn s op).1 = s := by
+  cases op with
+  | fit idx y sw sb => exact fit_error_atomic cfg fitFn s idx y sw sb h
+  | pfit idx y sw ub sb => exact partialFit_error_atomic cfg fitFn pfitFn s idx y sw ub sb h
+
+/-- `clf_is_fresh_fit` — **after every call sequence** (induction over the sequence, raising calls
+included) the wrapped classifier is `fitFn` of the recorded training list — a fresh copy trained on
+exactly the implied triples — **for every `fitFn`**; likewise the base classifier. -/
+theorem clf_is_fresh_fit (cfg : Cfg L W) (fitFn : Data L W → C) (pfitFn : C → Data L W → C)
+    (hn : cfg.native = false) (ops : List (Op L W)) (s : St C L W) (hi : Inv cfg fitFn s) :
+    Inv cfg fitFn (run cfg fitFn pfitFn s ops) := by
+  induction ops generalizing s with
+  | nil => exact hi
+  | cons op ops ih =>
+    simp only [run]
+    apply ih
+    cases he : (step cfg fitFn pfitFn s op).2 with
+    | none => exact step_ok_inv cfg fitFn pfitFn s op hn hi he
+    | some e => rw [step_error_atomic cfg fitFn pfitFn s op (by rw [he]; simp)]; exact hi
 
 /-! ## Invariants that hold after *every* call, raising or not -/
 
@@ -255,44 +303,17 @@ theorem enforceUnique_nodup (cfg : Cfg L W) (fitFn : Data L W → C) (pfitFn : C
         intro hu
         obtain ⟨i1, i2⟩ := hi hu
         unfold partialNative
-        cases ub <;> simp only [Bool.false_eq_true, if_false, if_true] <;>
-          (split
-           · exact ⟨i1, i2⟩
-           · split
-             · exact ⟨i1, i2⟩
-             · split <;> exact ⟨i1, i2⟩)
+        split
+        · exact ⟨i1, i2⟩
+        · split
+          · exact ⟨i1, i2⟩
+          · split <;> exact ⟨i1, i2⟩
       | false =>
         simp only [Bool.false_eq_true, if_false]
-        unfold partialEmu
-        split
-        · exact hi
-        simp only
-        split
-        · intro hu; exact hi hu
-        rename_i _ cur0 hcur _ d hstart
-        have hdn : cfg.unique = true → d.idx.Nodup := by
-          intro hu
-          cases ub
-          · simp only [Bool.false_eq_true, if_false] at hstart
-            injection hstart with hstart; subst hstart
-            exact (hi hu).1 _ hcur
-          · simp only [if_true] at hstart
-            exact (hi hu).2 _ hstart
-        have hmid : ∀ d', d'.idx = maskSel d.idx (keepMask cfg.unique d.idx idx) ++ idx →
-            ∀ clf1 : Option C, NodupInv cfg (⟨clf1, some d', s.bclf, s.base⟩ : St C L W) := by
-          intro d' hd' clf1 hu
-          refine ⟨?_, (hi hu).2⟩
-          intro d'' hd''
-          simp only at hd''
-          injection hd'' with hd''; subst hd''
-          rw [hd', hu]
-          exact merged_idx_nodup d idx (hdn hu) ((checkIdx_none cfg idx hc).2.1 hu)
-        split
-        · rename_i d' e hm
-          exact hmid d' ((merge_idx cfg.unique d idx ay aw).2 d' e hm) _
-        · rename_i d' hm
-          exact fit_nodup cfg fitFn _ _ _ _ sb (hmid d' ((merge_idx cfg.unique d idx ay aw).1 d' hm) _)
-
+        rcases partialEmu_cases cfg fitFn s idx ay aw ub sb with h | ⟨d', h⟩
+        · rw [h]; exact hi
+        · rw [h]
+          exact fit_nodup cfg fitFn _ _ _ _ sb (fun hu => ⟨(hi hu).1, (hi hu).2⟩)
 
 theorem fit_base_unchanged (cfg : Cfg L W) (fitFn : Data L W → C) (s : St C L W)
     (idx : List Int) (y : Option (List L)) (sw : Option (List W)) :
@@ -322,21 +343,59 @@ theorem base_unchanged_without_setBase (cfg : Cfg L W) (fitFn : Data L W → C) 
     | true =>
       simp only [if_true]
       unfold partialNative
-      cases ub <;> simp only [Bool.false_eq_true, if_false, if_true] <;>
-        (split
-         · exact ⟨rfl, rfl⟩
-         · split <;> exact ⟨rfl, rfl⟩)
+      split
+      · exact ⟨rfl, rfl⟩
+      · split <;> exact ⟨rfl, rfl⟩
     | false =>
       simp only [Bool.false_eq_true, if_false]
-      unfold partialEmu
-      split
-      · exact ⟨rfl, rfl⟩
-      simp only
-      split
-      · exact ⟨rfl, rfl⟩
-      split
-      · exact ⟨rfl, rfl⟩
-      · exact fit_base_unchanged cfg fitFn _ _ _ _
+      rcases partialEmu_cases cfg fitFn s idx ay aw ub false with h | ⟨d', h⟩
+      · rw [h]; exact ⟨rfl, rfl⟩
+      · rw [h]; exact fit_base_unchanged cfg fitFn _ _ _ _
+
+/-- the validation inside `fit` never looks at the object: if `fit` raises on one object it raises the
+same exception on any other (and leaves it unchanged) -/
+theorem fit_error_transfer (cfg : Cfg L W) (fitFn : Data L W → C) (s t s' : St C L W)
+    (idx : List Int) (y : Option (List L)) (sw : Option (List W)) (sb : Bool) (e : Err)
+    (h : fit cfg fitFn s idx y sw sb = (s', some e)) : fit cfg fitFn t idx y sw sb = (t, some e) := by
+  unfold fit at h ⊢
+  cases hc : checkIdx cfg idx with
+  | some e' => rw [hc] at h; simp only at h ⊢; injection h with _ h2; rw [h2]
+  | none =>
+    rw [hc] at h; simp only at h ⊢
+    cases hy : resolveY cfg idx y with
+    | error e' => rw [hy] at h; simp only at h ⊢; injection h with _ h2; rw [h2]
+    | ok yy =>
+      rw [hy] at h; simp only at h ⊢
+      cases hw : resolveSW cfg idx sw with
+      | error e' => rw [hw] at h; simp only at h ⊢; injection h with _ h2; rw [h2]
+      | ok ww =>
+        rw [hw] at h; simp only at h ⊢
+        cases hx : xIndexOk cfg idx with
+        | false => rw [hx] at h; simp only [Bool.not_false, if_true] at h ⊢; injection h with _ h2; rw [h2]
+        | true =>
+          rw [hx] at h
+          simp only [Bool.not_true, Bool.false_eq_true, if_false] at h
+          split at h <;> (injection h with _ h2; cases h2)
+
+/-- with `native = false` the outcome of `fit` does not depend on the object's current classifier and
+current record -/
+theorem fit_indep_cur (cfg : Cfg L W) (fitFn : Data L W → C) (hn : cfg.native = false) (s t : St C L W)
+    (hb : s.base = t.base) (hc : s.bclf = t.bclf)
+    (idx : List Int) (y : Option (List L)) (sw : Option (List W)) (sb : Bool) :
+    (fit cfg fitFn s idx y sw sb).2 = (fit cfg fitFn t idx y sw sb).2 ∧
+    ((fit cfg fitFn s idx y sw sb).2 = none → (fit cfg fitFn s idx y sw sb).1 = (fit cfg fitFn t idx y sw sb).1) := by
+  rcases hfe : fit cfg fitFn s idx y sw sb with ⟨s', e⟩
+  cases e with
+  | some e =>
+    rw [fit_error_transfer cfg fitFn s t s' idx y sw sb e hfe]
+    exact ⟨rfl, fun h => by cases h⟩
+  | none =>
+    obtain ⟨yy, ww, h1, h2, h3, h4, hs⟩ := fit_ok cfg fitFn s s' idx y sw sb hfe
+    rw [fit_of_valid cfg fitFn t idx y sw sb yy ww h1 h2 h3 h4]
+    subst hs
+    refine ⟨rfl, fun _ => ?_⟩
+    unfold fitResult
+    cases sb <;> simp [hn, hb, hc]
 
 /-- `partialFit_useBase_independent_of_cur` — **`partial_fit(use_base_clf=True)` restarts from the base**:
 two objects with the same base classifier and base record (and, on the emulated path, some current
@@ -366,7 +425,13 @@ theorem partialFit_useBase_independent_of_cur (cfg : Cfg L W) (fitFn : Data L W 
       simp only [if_true]
       unfold partialNative
       simp only [if_true, hc, hb, hnat hn]
-      first | exact ⟨rfl, fun _ => rfl⟩ | simp
+      cases xIndexOk cfg idx with
+      | false => exact ⟨rfl, fun h => by cases h⟩
+      | true =>
+        simp only [Bool.not_true, Bool.false_eq_true, if_false]
+        cases t.bclf with
+        | none => exact ⟨rfl, fun h => by cases h⟩
+        | some c => cases sb <;> exact ⟨rfl, fun _ => rfl⟩
     | false =>
       simp only [Bool.false_eq_true, if_false]
       unfold partialEmu
@@ -379,14 +444,21 @@ theorem partialFit_useBase_independent_of_cur (cfg : Cfg L W) (fitFn : Data L W 
         cases ht : t.cur with
         | none => rw [(hcur hn).mpr ht] at hs; cases hs
         | some ct =>
-          simp only [if_true, hb, hc]
+          simp only [if_true, hb]
           cases t.base with
           | none => exact ⟨rfl, fun h => by cases h⟩
           | some d =>
             simp only
             cases merge cfg.unique d idx ay aw with
-            | error p => first | exact ⟨rfl, fun _ => rfl⟩ | simp
-            | ok d' => first | exact ⟨rfl, fun _ => rfl⟩ | simp
+            | error e => exact ⟨rfl, fun h => by cases h⟩
+            | ok d' =>
+              simp only
+              obtain ⟨f1, f2⟩ := fit_indep_cur cfg fitFn hn (⟨none, some cs, s.bclf, some d⟩ : St C L W)
+                ⟨none, some ct, t.bclf, some d⟩ rfl hc d'.idx (some d'.y) d'.sw sb
+              rw [← f1]
+              cases he : (fit cfg fitFn (⟨none, some cs, s.bclf, some d⟩ : St C L W) d'.idx (some d'.y) d'.sw sb).2 with
+              | some e => exact ⟨rfl, fun h => by cases h⟩
+              | none => exact ⟨he.trans (by rw [f1] at he; exact he.symm), fun _ => f2 he⟩
 
 /-- The property speaks of the *multiset* of triples: for a wrapped classifier that does not depend on
 the order of its training samples, any list with the same multiset gives the same classifier. -/
@@ -446,14 +518,15 @@ theorem step_natural (cfg : Cfg L W) (φ : C → C') (fitFn : Data L W → C) (p
         simp only [if_true]
         unfold partialNative
         cases xIndexOk cfg idx with
-        | false => cases ub <;> simp [mapSt]
+        | false => rfl
         | true =>
+          simp only [Bool.not_true, Bool.false_eq_true, if_false]
           cases ub
-          · simp only [Bool.false_eq_true, if_false, Bool.not_true]
+          · simp only [Bool.false_eq_true, if_false]
             cases hc : s.clf with
             | none => simp [mapSt, hc]
             | some c => cases sb <;> simp [mapSt, hc, hp]
-          · simp only [if_true, Bool.not_true, Bool.false_eq_true, if_false]
+          · simp only [if_true]
             cases hc : s.bclf with
             | none => simp [mapSt, hc]
             | some c => cases sb <;> simp [mapSt, hc, hp]
@@ -469,17 +542,24 @@ theorem step_natural (cfg : Cfg L W) (φ : C → C') (fitFn : Data L W → C) (p
           have hb : (mapSt φ s).base = s.base := rfl
           rw [hb]
           cases (if ub = true then s.base else some cur0) with
-          | none => cases ub <;> simp [mapSt, hcur]
+          | none => rfl
           | some d =>
             simp only
             cases merge cfg.unique d idx ay aw with
-            | error p => obtain ⟨d', e⟩ := p; cases ub <;> simp [mapSt]
+            | error e => rfl
             | ok d' =>
               simp only
-              have := fit_natural cfg φ fitFn fitFn' hf ⟨if ub = true then none else s.clf, some d', s.bclf, s.base⟩
+              have hnat := fit_natural cfg φ fitFn fitFn' hf ⟨if ub = true then none else s.clf, some cur0, s.bclf, s.base⟩
                 d'.idx (some d'.y) d'.sw sb
-              rw [← this]
-              cases ub <;> simp [mapSt]
+              have hst : (⟨if ub = true then none else (mapSt φ s).clf, some cur0, (mapSt φ s).bclf, s.base⟩ : St C' L W) =
+                  mapSt φ ⟨if ub = true then none else s.clf, some cur0, s.bclf, s.base⟩ := by
+                cases ub <;> simp [mapSt]
+              rw [hst, hnat]
+              simp only
+              cases he : (fit cfg fitFn ⟨if ub = true then none else s.clf, some cur0, s.bclf, s.base⟩
+                d'.idx (some d'.y) d'.sw sb).2 with
+              | some e => rfl
+              | none => simp [he]
 
 theorem run_natural (cfg : Cfg L W) (φ : C → C') (fitFn : Data L W → C) (pfitFn : C → Data L W → C)
     (fitFn' : Data L W → C') (pfitFn' : C' → Data L W → C')
@@ -505,7 +585,7 @@ call sequence — raising calls included —** the classifier held by the wrappe
 equals a fresh copy put through exactly the recorded sequence of `fit` / native `partial_fit` calls:
 the recorded sequence is what the same run yields on the free classifier `Hist`, which only logs its
 calls. (On the native path equality with *batch* retraining is not claimed: it depends on the
-estimator.) On the emulated path the recorded sequence is a single `fit`, see `clf_is_fresh_fit_partial`. -/
+estimator.) On the emulated path the recorded sequence is a single `fit`, see `clf_is_fresh_fit`. -/
 theorem clf_is_replay (cfg : Cfg L W) (fitFn : Data L W → C) (pfitFn : C → Data L W → C)
     (ops : List (Op L W)) :
     run cfg fitFn pfitFn ⟨none, none, none, none⟩ ops =
@@ -724,31 +804,6 @@ theorem step_speed_irrelevant (cfg : Cfg L W) (fitFn : Data L W → C) (pfitFn :
     step { cfg with speed := b } fitFn pfitFn s op = step cfg fitFn pfitFn s op := by
   cases op <;> rfl
 
-/-- the validation inside `fit` never looks at the object: if `fit` raises on one object it raises the
-same exception on any other (and leaves it unchanged) -/
-theorem fit_error_transfer (cfg : Cfg L W) (fitFn : Data L W → C) (s t s' : St C L W)
-    (idx : List Int) (y : Option (List L)) (sw : Option (List W)) (sb : Bool) (e : Err)
-    (h : fit cfg fitFn s idx y sw sb = (s', some e)) : fit cfg fitFn t idx y sw sb = (t, some e) := by
-  unfold fit at h ⊢
-  cases hc : checkIdx cfg idx with
-  | some e' => rw [hc] at h; simp only at h ⊢; injection h with _ h2; rw [h2]
-  | none =>
-    rw [hc] at h; simp only at h ⊢
-    cases hy : resolveY cfg idx y with
-    | error e' => rw [hy] at h; simp only at h ⊢; injection h with _ h2; rw [h2]
-    | ok yy =>
-      rw [hy] at h; simp only at h ⊢
-      cases hw : resolveSW cfg idx sw with
-      | error e' => rw [hw] at h; simp only at h ⊢; injection h with _ h2; rw [h2]
-      | ok ww =>
-        rw [hw] at h; simp only at h ⊢
-        cases hx : xIndexOk cfg idx with
-        | false => rw [hx] at h; simp only [Bool.not_false, if_true] at h ⊢; injection h with _ h2; rw [h2]
-        | true =>
-          rw [hx] at h
-          simp only [Bool.not_true, Bool.false_eq_true, if_false] at h
-          split at h <;> (injection h with _ h2; cases h2)
-
 /-- once a training record exists it never disappears -/
 theorem cur_some_preserved (cfg : Cfg L W) (fitFn : Data L W → C) (pfitFn : C → Data L W → C)
     (s : St C L W) (op : Op L W) (hn : cfg.native = false) (h : s.cur ≠ none) :
@@ -773,15 +828,9 @@ theorem cur_some_preserved (cfg : Cfg L W) (fitFn : Data L W → C) (pfitFn : C 
       obtain ⟨ay, aw⟩ := p
       rw [partialFit_valid cfg fitFn pfitFn s idx y sw ub sb ay aw hv, hn]
       simp only [Bool.false_eq_true, if_false]
-      unfold partialEmu
-      split
-      · exact h
-      simp only
-      split
-      · exact h
-      split
-      · simp
-      · exact hfit _ _ _ _ _ (by simp)
+      rcases partialEmu_cases cfg fitFn s idx ay aw ub sb with h' | ⟨d', h'⟩
+      · rw [h']; exact h
+      · rw [h']; exact hfit _ _ _ _ _ h
 
 /-- How the object with `use_speed_up=True` (`sOn`) relates to the one without (`sOff`) after the same
 calls: identical, except that before the first successful `fit` the speed-up object holds an unfitted
@@ -879,7 +928,7 @@ def Sem.eval {R : Type} (sem : Sem C κ R) (orig : Option C) (s : St C L W) : Pl
 /-- `speedup_never_changes_prediction_state` — **whenever the speed-up object answers, the plain object
 gives the same answer** (`predict`, `predict_proba` and `predict_freq` alike, before and after the first
 `fit`): for related objects whose classifier is the fresh fit on the recorded list
-(`clf_is_fresh_fit_partial`), a sound table, a symmetric kernel, and a precomputed clone that computes
+(`clf_is_fresh_fit`), a sound table, a symmetric kernel, and a precomputed clone that computes
 from the kernel rows what the original computes from the samples (`hlink`: Parzen window, `K @ V_`). -/
 theorem speedup_never_changes_prediction_state {R : Type} (cfg : Cfg L W) (fitFn : Data L W → C)
     (sem : Sem C κ R) (k : Nat → Nat → κ) (pre : Tab κ) (hs : TabSound k pre) (hsym : ∀ i j, k i j = k j i)
@@ -937,9 +986,8 @@ theorem speedup_never_changes_prediction_state {R : Type} (cfg : Cfg L W) (fitFn
     · cases h
 
 /-- `speedup_never_changes_prediction` — the same **over whole histories**: for every classifier handed
-to the constructor (fitted or not), every `set_base_clf`, every call sequence in which no raising call
-modified the plain object (the exception: the open findings on `partial_fit`, see
-`partialFit_error_not_atomic_counterexample`), every kind of prediction and every query. -/
+to the constructor (fitted or not), every `set_base_clf`, every call sequence (raising calls included),
+every kind of prediction and every query. -/
 theorem speedup_never_changes_prediction {R : Type} (cfg : Cfg L W) (fitFn : Data L W → C)
     (pfitFn : C → Data L W → C) (hn : cfg.native = false)
     (sem : Sem C κ R) (k : Nat → Nat → κ) (pre : Tab κ) (hs : TabSound k pre) (hsym : ∀ i j, k i j = k j i)
@@ -948,8 +996,7 @@ theorem speedup_never_changes_prediction {R : Type} (cfg : Cfg L W) (fitFn : Dat
     (orig : Option C) (sb : Bool) (sOn sOff : St C L W)
     (hOn : init { cfg with speed := true } orig sb = .ok sOn)
     (hOff : init { cfg with speed := false } orig sb = .ok sOff)
-    (ops : List (Op L W)) (hclean : CleanRun { cfg with speed := false } fitFn pfitFn sOff ops)
-    (kind : Kind) (q : List Int) (pOn : Plan κ)
+    (ops : List (Op L W)) (kind : Kind) (q : List Int) (pOn : Plan κ)
     (h : predictPlan { cfg with speed := true } orig.isSome
       (run { cfg with speed := true } fitFn pfitFn sOn ops) pre kind q = .ok pOn) :
     ∃ pOff, predictPlan { cfg with speed := false } orig.isSome
@@ -957,8 +1004,8 @@ theorem speedup_never_changes_prediction {R : Type} (cfg : Cfg L W) (fitFn : Dat
       sem.eval orig (run { cfg with speed := true } fitFn pfitFn sOn ops) pOn =
         sem.eval orig (run { cfg with speed := false } fitFn pfitFn sOff ops) pOff := by
   have hrel := speedRel_run cfg fitFn pfitFn orig hn ops sOn sOff (speedRel_init cfg orig sb sOn sOff hOn hOff)
-  have hinv := clf_is_fresh_fit_partial { cfg with speed := false } fitFn pfitFn hn ops sOff
-    (init_inv _ fitFn orig sb sOff hOff) hclean
+  have hinv := clf_is_fresh_fit { cfg with speed := false } fitFn pfitFn hn ops sOff
+    (init_inv _ fitFn orig sb sOff hOff)
   obtain ⟨pOff, h1, h2, -⟩ := speedup_never_changes_prediction_state cfg fitFn sem k pre hs hsym hlink orig _ _ hrel
     hinv.2.2.1 kind q pOn h
   exact ⟨pOff, h1, h2⟩
@@ -979,6 +1026,108 @@ end Ska.C19
 
 namespace Ska.C19.Regressions
 open Ska Ska.IW
+
+section OldPartialFit
+variable {C L W : Type}
+
+/-- the concatenation block as it was before the repair: the three assignments happened one after the
+other on the object; on an exception the result carries the out-of-step record the object was left with -/
+def mergeV0 (unique : Bool) (d : Data L W) (idx : List Int) (ay : List L) (aw : Option (List W)) :
+    Except (Data L W × Err) (Data L W) :=
+  let keep := keepMask unique d.idx idx
+  let idx' := maskSel d.idx keep ++ idx
+  match selKeep unique keep d.y with
+  | none => .error (⟨idx', d.y, d.sw⟩, .index)
+  | some ky =>
+    let y' := ky ++ ay
+    match d.sw with
+    | none =>
+      match aw with
+      | none => .ok ⟨idx', y', none⟩
+      | some _ => .error (⟨idx', y', none⟩, .mixed)
+    | some w =>
+      match selKeep unique keep w with
+      | none => .error (⟨idx', y', some w⟩, .index)
+      | some kw =>
+        match aw with
+        | some a => .ok ⟨idx', y', some (kw ++ a)⟩
+        | none => .error (⟨idx', y', some w⟩, .mixed)
+
+def partialNativeV0 (cfg : Cfg L W) (pfitFn : C → Data L W → C) (s : St C L W)
+    (idx : List Int) (ay : List L) (aw : Option (List W)) (useBase setBase : Bool) :
+    St C L W × Option Err :=
+  let s1 : St C L W := if useBase then ⟨s.bclf, s.cur, s.bclf, s.base⟩ else s
+  if !(xIndexOk cfg idx) then (s1, some .index)
+  else
+    match s1.clf with
+    | none => (s1, some .notFitted)
+    | some c =>
+      let c' := pfitFn c ⟨idx, ay, aw⟩
+      if setBase then (⟨some c', s1.cur, some c', s1.base⟩, none)
+      else (⟨some c', s1.cur, s1.bclf, s1.base⟩, none)
+
+def partialEmuV0 (cfg : Cfg L W) (fitFn : Data L W → C) (s : St C L W)
+    (idx : List Int) (ay : List L) (aw : Option (List W)) (useBase setBase : Bool) :
+    St C L W × Option Err :=
+  match s.cur with
+  | none => (s, some .notFitted)
+  | some cur0 =>
+    let clf1 : Option C := if useBase then none else s.clf
+    match (if useBase then s.base else some cur0) with
+    | none => (⟨clf1, s.cur, s.bclf, s.base⟩, some .attr)
+    | some d =>
+      match mergeV0 cfg.unique d idx ay aw with
+      | .error (d', e) => (⟨clf1, some d', s.bclf, s.base⟩, some e)
+      | .ok d' => fit cfg fitFn ⟨clf1, some d', s.bclf, s.base⟩ d'.idx (some d'.y) d'.sw setBase
+
+/-- `partial_fit` as it was before the repair -/
+def partialFitV0 (cfg : Cfg L W) (fitFn : Data L W → C) (pfitFn : C → Data L W → C) (s : St C L W)
+    (idx : List Int) (y : Option (List L)) (sw : Option (List W)) (useBase setBase : Bool) :
+    St C L W × Option Err :=
+  match validatePartial cfg s idx y sw useBase with
+  | .error e => (s, some e)
+  | .ok (ay, aw) =>
+    if cfg.native then partialNativeV0 cfg pfitFn s idx ay aw useBase setBase
+    else partialEmuV0 cfg fitFn s idx ay aw useBase setBase
+
+end OldPartialFit
+
+/-- old code: weights `None` so far, then a `partial_fit` with weights raised in `_concat_sw` *after*
+`idx_` / `y_` were extended; the next (successful) `partial_fit` trained on the rejected sample 2 as well -/
+theorem clf_is_fresh_fit_counterexample :
+    let cfg : Cfg Nat Nat := ⟨4, [0, 1, 0, 1], none, false, false, false⟩
+    let s0 : St (Data Nat Nat) Nat Nat := ⟨none, none, none, none⟩
+    let s1 := (fit cfg id s0 [0, 1] none none false).1
+    let r2 := partialFitV0 cfg id (fun c _ => c) s1 [2] (some [1]) (some [1]) false false
+    let r3 := partialFitV0 cfg id (fun c _ => c) r2.1 [3] none none false false
+    r2.2 = some .mixed ∧ r2.1 ≠ s1 ∧ r3.2 = none ∧
+      r3.1.clf = some ⟨[0, 1, 2, 3], [0, 1, 1, 1], none⟩ := by decide
+
+/-- old code: three raising paths left a modified object behind (`_concat_sw` on mixed weights; the base
+classifier handed to `__init__` has no `base_idx_`, raised after `clf_` was replaced by an unfitted clone;
+an index below `-n` that passes the validation when labels are given) -/
+theorem partialFit_error_not_atomic_counterexample :
+    let cfg : Cfg Nat Nat := ⟨4, [0, 1, 0, 1], none, false, false, false⟩
+    let d : Data Nat Nat := ⟨[0, 1], [0, 1], none⟩
+    let s : St (Data Nat Nat) Nat Nat := ⟨some d, some d, none, none⟩
+    let sb : St (Data Nat Nat) Nat Nat := ⟨some d, some d, some d, none⟩
+    partialFitV0 cfg id (fun c _ => c) s [2] (some [1]) (some [1]) false false =
+        (⟨some d, some ⟨[0, 1, 2], [0, 1, 1], none⟩, none, none⟩, some .mixed) ∧
+    partialFitV0 cfg id (fun c _ => c) sb [2] none none true false =
+        (⟨none, some d, some d, none⟩, some .attr) ∧
+    partialFitV0 cfg id (fun c _ => c) s [-5] (some [1]) none false false =
+        (⟨some d, some ⟨[0, 1, -5], [0, 1, 1], none⟩, none, none⟩, some .index) := by decide
+
+/-- the repaired code on the same three inputs: the same exceptions (the unknown base data now as
+`NotFittedError`), the object untouched -/
+theorem partialFit_error_atomic_repaired :
+    let cfg : Cfg Nat Nat := ⟨4, [0, 1, 0, 1], none, false, false, false⟩
+    let d : Data Nat Nat := ⟨[0, 1], [0, 1], none⟩
+    let s : St (Data Nat Nat) Nat Nat := ⟨some d, some d, none, none⟩
+    let sb : St (Data Nat Nat) Nat Nat := ⟨some d, some d, some d, none⟩
+    partialFit cfg id (fun c _ => c) s [2] (some [1]) (some [1]) false false = (s, some .mixed) ∧
+    partialFit cfg id (fun c _ => c) sb [2] none none true false = (sb, some .notFitted) ∧
+    partialFit cfg id (fun c _ => c) s [-5] (some [1]) none false false = (s, some .index) := by decide
 
 /-- `predictPlan` as the code was before /repo commit 1805c2fd: in the speed-up branch without `idx_`
 all three methods returned `self.clf.predict_proba(...)`. -/
@@ -1029,14 +1178,15 @@ open Ska Ska.IW
 
 /-! ## Non-vacuity: concrete instances meet the hypotheses -/
 
-/-- a clean, non-trivial run: fit (stored as base), partial fit with a label override, restart from the base -/
+/-- a non-trivial run: fit (stored as base), partial fit with a label override, a rejected call (mixed
+weights), restart from the base -/
 example :
     let cfg : Cfg Nat Nat := ⟨4, [0, 1, 0, 1], none, false, true, false⟩
     let ops : List (Op Nat Nat) :=
-      [.fit [0, 1] none none true, .pfit [1, 2] (some [0, 1]) none false false, .pfit [3] none none true false]
-    CleanRun cfg id (fun c _ => c) ⟨none, none, none, none⟩ ops ∧
-      (run cfg id (fun c _ => c) ⟨none, none, none, none⟩ ops).clf = some ⟨[0, 1, 3], [0, 1, 1], none⟩ := by
-  refine ⟨⟨Or.inl (by decide), Or.inl (by decide), Or.inl (by decide), trivial⟩, by decide⟩
+      [.fit [0, 1] none none true, .pfit [1, 2] (some [0, 1]) none false false,
+       .pfit [2] (some [1]) (some [1]) false false, .pfit [3] none none true false]
+    (run cfg id (fun c _ => c) ⟨none, none, none, none⟩ ops).clf = some ⟨[0, 1, 3], [0, 1, 1], none⟩ := by
+  decide
 
 example : Inv (C := Data Nat Nat) (⟨4, [0, 1, 0, 1], none, false, true, false⟩ : Cfg Nat Nat) id ⟨none, none, none, none⟩ :=
   init_inv _ id none false _ rfl
